@@ -480,6 +480,8 @@ def r8_structure(a, tier):
         ('a mapping with an unknown tag', {'__class__': 'Unknown', 'x': {'__class__': 'Zed', 'a': 1}}, ('NS', (('x', z1),))),
         ('a plain mapping and scalars', {'p': [1, 'x', None, 2.5], 'q': {'__class__': 'Zed', 'a': 1}}, {'p': [1, 'x', None, 2.5], 'q': z1}),
         ('a tuple', (1, {'__class__': 'Zed', 'a': 1}), [1, z1]),
+        ('members whose value is null, false, 0, an empty string or an empty list', {'__class__': 'Zed', 'n': None, 'f': False, 'z': 0, 's': '', 'l': [], 'd': {'k': None}},
+         ('ZED', (('d', {'k': None}), ('f', False), ('l', []), ('n', None), ('s', ''), ('z', 0)))),
     ]
     for what, value, want in dcases:
         got = dec(value)
